@@ -340,7 +340,7 @@ def scenarios_for(pid, tier, r):
     return scns
 
 
-DEPS = ["theories/Proofs/SpawnProofs.vo"]
+DEPS = ["theories/Proofs/SpawnProofs.vo", "theories/Proofs/SigProofs.vo"]
 
 
 def run(chk, tier, pid, explicit=None):
